@@ -5,7 +5,8 @@ clash x explicit units imports. Every case is a set of files (root + libraries, 
 ground-truth values computed here from the spec (units scales included). Oracle: resolve succeeds, flattenModel returns a model
 without imports that validates with no issue, the argument and every library model are unchanged, the flat model analyses to
 the expected type, and the generated C and Python give the ground-truth value of every root variable."""
-import os, sys, json, shutil, tempfile
+import os
+import re, sys, json, shutil, tempfile
 V = os.path.dirname(os.path.dirname(os.path.abspath(__file__)))
 sys.path.insert(0, os.path.join(V, 'lib'))
 import codeexec as X
@@ -24,6 +25,8 @@ DIMS = [
     ('compclash', ['none', 'root-component-named-like-child', 'root-component-named-like-reference', 'root-child-named-like-import']),
     ('rootunits', ['local', 'imported-units-on-variable', 'imported-units-only-in-cn', 'same-units-imported-twice']),
     ('mathblocks', ['one', 'two']),
+    # local components of the importing model that the (first) import instance encapsulates there
+    ('rootkids', ['none', 'two', 'three']),
 ]
 SCALE = {'metre': 1.0, 'mm': 1e-3, 'um': 1e-6, 'km': 1e3}
 
@@ -62,6 +65,7 @@ def build(case):
     """returns root_doc, lib{url:doc}, expected{(comp,var):value}, notes"""
     st, inst, lu, uc, cc, ru = (case[k] for k in ('structure', 'instances', 'libunits', 'unitsclash', 'compclash', 'rootunits'))
     case.setdefault('mathblocks', 'one')
+    case.setdefault('rootkids', 'none')
     lib1_units, lib2_units = [], []
     # ---- units used by the library component's variables
     if lu == 'metre':
@@ -224,8 +228,16 @@ def build(case):
         extra = '<component name="%s"><variable name="q" units="dimensionless" initial_value="1"/></component>' % Cn
     elif cc == 'root-component-named-like-reference':
         extra = '<component name="%s"><variable name="q" units="dimensionless" initial_value="1"/></component>' % T
+    nk = {'none': 0, 'two': 2, 'three': 3}[case['rootkids']]
+    for j in range(nk):
+        # each computes a value of its own; losing the component loses the variable
+        extra += ('<component name="K%d"><variable name="kv" units="dimensionless"/><math %s><apply><eq/><ci>kv</ci>%s</apply></math></component>'
+                  % (j, MNS, cnu(j + 0.5, 'dimensionless')))
+        expected[('K%d' % j, 'kv')] = j + 0.5
+    if nk:
+        extra_enc = '<encapsulation><component_ref component="%s">%s</component_ref></encapsulation>' % (names[0], ''.join('<component_ref component="K%d"/>' % j for j in range(nk)))
     main = '<component name="main">%s<math %s>%s</math></component>' % (''.join(mvars), MNS, ''.join(meqs))
-    root = '<?xml version="1.0"?><model %s name="root">%s%s%s%s%s</model>' % (NS, ''.join(imports), ''.join(root_units), main, extra, ''.join(conns))
+    root = '<?xml version="1.0"?><model %s name="root">%s%s%s%s%s%s</model>' % (NS, ''.join(imports), ''.join(root_units), main, extra, ''.join(conns), extra_enc)
     return root, lib, expected
 
 
@@ -263,7 +275,8 @@ def families(opts):
         if opts.get('skip-libunits') == case['libunits']:
             ctx.outcome('not-run-in-this-pass:libunits=' + case['libunits'])
             return
-        if opts.get('sub') == 'q' and (case['rootunits'] not in ('local', 'imported-units-on-variable') or case['compclash'] not in ('none', 'root-component-named-like-child')):
+        if opts.get('sub') == 'q' and (case['rootunits'] not in ('local', 'imported-units-on-variable') or case['compclash'] not in ('none', 'root-component-named-like-child')
+                                       or (case['rootkids'] != 'none' and (case['mathblocks'] != 'one' or case['instances'] != 'one'))):
             ctx.outcome('not-in-the-quick-sub-product')
             return
         root, lib, expected = build(case)
@@ -320,10 +333,17 @@ def families(opts):
                 rep('values:%s-run-raised:%s' % (prof, type(ex).__name__), {'error': str(ex)[:300]})
                 continue
             for (c, v), want in expected.items():
-                if (c, v) not in idx:
-                    rep('values:root-variable-missing-from-flat-analysis', {'var': v})
+                key = (c, v)
+                if key not in idx and c.startswith('K'):
+                    # a local component moved below the instantiated import may come out renamed '<name>_<n>' (pinned by the
+                    # repository's ModelFlattening.importingComponentThatAlsoHasAnImportedComponentAsAChild): not judged
+                    alt = [k for k in idx if k[1] == v and re.fullmatch(re.escape(c) + r'(_\d+)+', k[0])]
+                    if len(alt) == 1:
+                        key = alt[0]
+                if key not in idx:
+                    rep('values:root-variable-missing-from-flat-analysis', {'var': '%s.%s' % (c, v)})
                     continue
-                got = out['variables'][idx[(c, v)]]
+                got = out['variables'][idx[key]]
                 if not X.close(got, want, rel=1e-9):
                     rep('values:%s:wrong-value:%s:%s:%s' % (prof, case['structure'], case['libunits'], case['unitsclash']), {'var': v, 'got': repr(got), 'want': repr(want)})
                     break
